@@ -172,6 +172,19 @@ def step (st : State) (toks : List String) : State × String :=
         | _, _ => "none")
     | _, _ => (st, "bad-op")
   | ["bulk", _, _, _] => ({ st with known := false }, "ok")
+  | "staterace" :: _ :: i :: id1 :: id2 :: rest =>
+    -- two puts at node i (the harness reports their stamps); the reply of the interleaved GetState must be safe for the
+    -- poller's skip rule (C01b.skip_safe): a reply whose change stamp is the final one carries the final set
+    match i.toNat?, id1.toNat?, id2.toNat?, kvArg rest "ts", kvArg rest "ts2" with
+    | some i, some id1, some id2, some ts1, some ts2 =>
+      let iss1 : Issued := .put (id1, ts1, [1])
+      let iss2 : Issued := .put (id2, ts2, [2])
+      let (c1, _) := applyAt c i 0 iss1
+      let c1 := { c1 with ops := c1.ops ++ [(i, iss1)] }
+      let (c2, _) := applyAt c1 i 0 iss2
+      let c2 := { c2 with ops := c2.ops ++ [(i, iss2)] }
+      ({ st with c := c2 }, "race safe")
+    | _, _, _, _, _ => (st, "bad-op")
   | op :: i :: targets :: id :: rest =>
     if op == "wput" || op == "wdel" then
       match i.toNat?, (if targets == "-" then some [] else StoreDom.parseIds targets), id.toNat?, kvArg rest "ts" with
